@@ -4,6 +4,7 @@ import Poulpy.Model.VecNorm
 import Poulpy.Model.Ring
 import Poulpy.Model.Core.Basic
 import Poulpy.Model.Core.Ep
+import Poulpy.Model.Core.Ks
 
 /-!
 Ciphertext multiplication (`poulpy-core/src/operations/glwe.rs`): `glwe_mul_const(_assign)`,
@@ -180,31 +181,16 @@ deriving Repr
 def GGLWE.toPMat (g : GGLWE) : Hal.PMat :=
   { n := g.n, rows := g.dnum, colsIn := g.colsIn, colsOut := g.colsOut, size := g.size, data := g.cells }
 
-/-- `gglwe_product_dft(res, a, key)`: `a` = `colsIn` DFT columns, `res0`/`tmp0` prior contents of
-`res` (`colsOut × resSize`) and of the temporary (`colsOut × key.size`, zeroed by the Rust). -/
+def GGLWE.toKey (g : GGLWE) : Ks.Key := { base2k := g.base2k, dsize := g.dsize, p := 0, mat := g.toPMat }
+
+/-- `gglwe_product_dft(res, a, key)` — the function C03 models (`Ks.gglweProductDft`, `keyswitching/glwe.rs`),
+applied to `a` = `colsIn` DFT columns and `res` = a `colsOut × resSize` buffer with prior content `res0`;
+returns the active columns.  C03's theorems (`keyswitch_phase_dsize1`, `keyswitch_phase_dsize_gt1`,
+`product_determined`) are therefore statements about what relinearisation and row expansion execute. -/
 def gglweProductDft (a : List Col) (g : GGLWE) (resSize : Nat) (res0 : List Col) : List Col :=
   let aSize := (a.getD 0 []).length
-  let aBuf := mkBuf g.n g.colsIn aSize a
-  let res : Hal.Buf := mkBuf g.n g.colsOut resSize res0
-  if g.dsize = 1 then
-    let r := Hal.opVmp res aBuf g.toPMat 0
-    (List.range g.colsOut).map r.act
-  else
-    let tmp0 : Hal.Buf := mkBuf g.n g.colsOut g.size (zeroCols g.n g.colsOut g.size)
-    let st := (List.range g.dsize).foldl (fun (st : Hal.Buf × Hal.Buf) di =>
-      let aiSize := min ((aSize + di) / g.dsize) g.dnum
-      let ai0 : Hal.Buf := mkBuf g.n g.colsIn aiSize (zeroCols g.n g.colsIn aiSize)
-      let resB := { st.1 with size := g.size - (g.dsize - di - 2) }
-      -- vec_znx_dft_copy(dsize, dsize − di − 1, ai_dft, j, a, j): same selection rule as dft_apply
-      let ai := dftApplyAll g.dsize (g.dsize - di - 1) ai0 aBuf
-      if di = 0 then (zeroTail (Hal.opVmp resB ai g.toPMat 0) resB.size g.size, st.2)
-      else
-        let tmp := { st.2 with size := resB.size }
-        let tmp := Hal.opVmp tmp ai g.toPMat di
-        (dftAddAssignAll resB tmp, tmp)) (res, tmp0)
-    -- res.set_size(res.max_size())
-    let r := { st.1 with size := st.1.maxSize }
-    (List.range g.colsOut).map r.act
+  let r := Ks.gglweProductDft (mkBuf g.n g.colsOut resSize res0) (mkBuf g.n g.colsIn aSize a) g.toKey
+  (List.range g.colsOut).map r.act
 
 /-- **`glwe_tensor_relinearize(res, a, tsk, tsk_size)`**: `a` = the tensor (`cols + pairs` columns,
 radix `aBase2k`), key radix `g.base2k`; `res0` = prior content of the `res_dft` scratch buffer. -/
